@@ -84,6 +84,9 @@ def gen_case(r, maxports=4, globs=True, allow_collisions=True):
     for b in branches:
         for j in range(r.randint(1, 3)):
             leaves[b + ('v%d' % j,)] = fresh()
+    # leaves directly under the root (paths of length one)
+    for j in range(r.choice([0, 0, 1, 2])):
+        leaves[('t%d' % j,)] = fresh()
     ploc = r.choice([()] + branches)
     if len(ploc) > 2:
         ploc = ploc[:2]
